@@ -7,8 +7,8 @@ import Sx.Lemmas.Ghost
   after the last byte it raises PayloadReady, with CrcOk according to the CRC outcome
   (CrcAutoClearOff, as every `sx127x_crc_type_t` value sets it); flag bits reflect the FIFO
   level at the moment they are read (FifoThreshold 31); PayloadReady and CrcOk are cleared when
-  the FIFO becomes empty; writing FifoOverrun flushes the FIFO.  The bus is fault-free here
-  (failures: C11).  Written with datasheet literals only.
+  the FIFO becomes empty; writing FifoOverrun flushes the FIFO; any transfer may fail, without
+  effect on the chip.  Written with datasheet literals only.
 -/
 namespace Sx
 
@@ -26,6 +26,7 @@ structure RxG where
   irq : UInt8 := 0             -- the last RegIrqFlags2 value read
   cbs : List CbEvent := []     -- callbacks so far
   ended : Bool := false        -- a callback has run: the application may have done anything
+  faulted : Bool := false      -- some transfer has failed
   poison : Bool := false       -- FIFO read while empty, or a request foreign to the receive path
 
 namespace RxG
@@ -91,10 +92,17 @@ def Ans.noErr : Ans → Prop
   | .u32 (.error _) => False | .u8 (.error _) => False | .unit (.error _) => False | .bytes (.error _) => False
   | _ => True
 
+/-- the write with which the handler drops what is left of a packet after a failure -/
+def FlushReq : Req → Prop
+  | .swrite reg d => reg = 0x3f ∧ d.headD 0 &&& 0x10 ≠ 0
+  | _ => False
+
 def rxR (g : RxG) (q : Req) (a : Ans) (g' : RxG) : Prop :=
   if g.poison = true ∨ g.ended = true then g' = g else
-  -- the bus is fault-free
-  a.noErr ∧ rxRLive g q a g'
+  -- a transfer that fails has no effect on the chip (the radio side goes on as ever); the one
+  -- transfer assumed not to fail is the recovery write itself
+  (a.noErr ∧ rxRLive g q a g') ∨
+  (¬a.noErr ∧ ¬FlushReq q ∧ ∃ k fin, g.Adm k ∧ g' = { g.arrive k fin with faulted := true })
 
 /-- after a callback the application may have done anything: the session is over -/
 def rxC (g : RxG) (e : CbEvent) (_h _h' : Handle) (g' : RxG) : Prop :=
